@@ -1645,6 +1645,11 @@ class SAngle:
             q = o / (2 * pi())
             if q.is_const() and q.cval().denominator == 1:
                 return SAngle(self.c, self.s, kind=self.kind)
+            if q.is_const() and q.cval().denominator == 2:
+                return SAngle(-self.c, -self.s, kind=self.kind)       # odd multiple of pi
+            if q.is_const() and q.cval().denominator == 4:
+                k = q.cval().numerator % 4                              # odd multiple of pi/2
+                return SAngle(-self.s, self.c, kind=self.kind) if k == 1 else SAngle(self.s, -self.c, kind=self.kind)
             if o.is_const() and o.cval() == 0:
                 return self
         raise SymbolicLeak(f"angle + {o!r}")
